@@ -74,7 +74,7 @@ func (e *Exec) invoke(c *Closure, args []Value, free []Value, recv *Iface, call 
 		if c.Free != nil && free == nil {
 			free = c.Free
 		}
-		if in := e.lookupIntrinsic(c.Fn); in != nil {
+		if in := e.lookupIntrinsic(c.Fn); in != nil && e.skipIntrinsic != c.Fn {
 			if e.res != nil {
 				e.res.Funcs[c.Fn.String()] = true
 			}
